@@ -86,7 +86,8 @@ def bind_args(finfo, call, bound_method=None):
 
 
 class Expander:
-    def __init__(self, prog, func, inline_depth=0, inline_filter=None, expand_self=True):
+    def __init__(self, prog, func, inline_depth=0, inline_filter=None, expand_self=True, keep=()):
+        self.keep = set(keep)
         self.prog, self.func = prog, func
         self.cfg = func.cfg if isinstance(func, FuncInfo) else None
         self.inline_depth = inline_depth
@@ -105,7 +106,7 @@ class Expander:
 
     # -------------------------------------------------------------- internals
     def _name(self, ident, node, visiting, bound, orig):
-        if ident in bound:
+        if ident in bound or ident in self.keep:
             return ast.Name(id=ident, ctx=ast.Load())
         func = self.func
         scope = func
